@@ -21,6 +21,11 @@ THEOREMS = [
     "Ts.Partition.C06_restore_complete",
     "Ts.Partition.C06_restore_complete_partitioned",
     "Ts.Partition.C06_partial_presence_private",
+    # whole-job data plane (TsModel/World.lean; tied by C01's world_tie suite)
+    "Ts.World.C06_world_written_once",
+    "Ts.World.C06_world_kept_nodup",
+    "Ts.World.C06_world_replicated_bytes_once",
+    "Ts.World.C07_world_replicated_everywhere",
 ]
 BUDGET_S = (100, 840)
 RULE = ("partition: W in 1..8 simulated ranks, random flat states of replicated / non-replicated tensors and objects with "
@@ -694,6 +699,10 @@ def run(ctx: Ctx):
         for l0, whole, chunks in CORPUS:
             _loads_one(ctx, l0, whole, chunks, "corpus")
     _loads_exhaustive(ctx)
+    # whole-job tie of the C06_world_* theorems (shared with C01): the real partition is fed to the Lean job model
+    from props import c01_world
+    for i in range(ctx.n(40, 500)):
+        c01_world.world_tie_case(ctx, c01_world.gen_world_case(ctx.rng), "world_tie")
     n = ctx.n(200, 2000)
     for i in range(n):
         if i >= 24 and ctx.time_left() < 30:
@@ -713,6 +722,12 @@ def run(ctx: Ctx):
 def replay(ctx: Ctx, rec):
     inp = rec["input"]
     before = len(ctx.failures)
+    if "glob" in inp or "glob" in inp.get("case", {}):
+        from props import c01_world
+        c01_world.world_tie_case(ctx, inp.get("case", inp), "replay")
+        for f in ctx.failures[:10]:
+            print("FAIL", f["sig"], f["what"], f["observed"])
+        return
     if "loads0" in inp:
         _loads_one(ctx, inp["loads0"], inp["whole"], inp["chunks"], "replay")
     elif rec.get("suite", "").startswith("take_restore"):
